@@ -1,8 +1,9 @@
 // ===== prelude/h_addr.rs — the boxed upgrade closure of WeakAddr (contract = lifted body From<&Addr>@WeakAddr::from closure0) =====
 pub struct UpTag;
 pub open spec fn upgraded_addr<A>(chan: int, cid: int, slot: int, consumed: bool, r: &Option<Addr<A>>) -> bool {
-    *r is Some ==> r->0.payload_tx.chan() == chan && r->0.payload_force_tx.chan() == chan && strong_both(r->0.own(), chan)
-        && r->0.context_id.0 as int == cid && r->0.running.slot() == slot && r->0.running.consumed() == consumed
+    &&& (*r is Some ==> r->0.payload_tx.chan() == chan && r->0.payload_force_tx.chan() == chan && strong_both(r->0.own(), chan)
+        && r->0.context_id.0 as int == cid && r->0.running.slot() == slot && r->0.running.consumed() == consumed)
+    &&& (*r is Some) == both_alive(chan)        // it upgrades exactly when both halves still have a strong handle: nothing else is consulted
 }
 impl<A> BoxedFn<(UpTag, A)> {
     #[verifier::external_body]
